@@ -230,6 +230,7 @@ def used_cases():
         kt[name] = list(kinds)
         kt["I_" + name] = list(kinds)
     kt["BSY1"] = ["q"]
+    kt["I_BSY1"] = ["q"]  # the idle twin of a busy gate is an idle gate: it uses nothing
     cfg = gen.Cfg(natives=kt, reg_args=False, usepulses=False, general_numbers=False, max_depth=4, macro_bias=1)
 
     def forwarding(ch):
